@@ -407,7 +407,7 @@ def trace_parse(ctx, tr, meta, nlines, timeout=1800, shards=4):
     return real
 
 
-def trace_api(ctx, cats, n=600, corpus=True, timeout=1800, parse=False, mutants=0):
+def trace_api(ctx, cats, n=600, corpus=True, timeout=1800, parse=False, mutants=0, reuse=False):
     """Layer L3: record a trace of real API calls (compliance corpus + seeded random driver beyond the generators'
     bounds) and validate it with TLC against Trace_Api.tla. `cats`: which mismatch kinds count for this property."""
     tr = os.path.join(ctx.scratch, "trace.%d.ndjson" % len(ctx.tlc_runs))
@@ -416,6 +416,10 @@ def trace_api(ctx, cats, n=600, corpus=True, timeout=1800, parse=False, mutants=
            "-corpus=%s" % ("true" if corpus else "false"), "-canary-every", "397"]
     if parse:
         cmd += ["-pev-canary-every", "97", "-mutants", str(mutants)]
+    elif mutants:
+        cmd += ["-mutants", str(mutants)]
+    if reuse:
+        cmd += ["-reuse-parser"]
     p = subprocess.run(cmd, capture_output=True, text=True, timeout=timeout)
     if p.returncode != 0:
         raise Machinery("jmv record failed: " + p.stderr[-1500:])
@@ -445,10 +449,13 @@ def trace_api(ctx, cats, n=600, corpus=True, timeout=1800, parse=False, mutants=
     for d in drift[:10]:
         ctx.drift.append("trace line %d: %s" % (d["line"], d["why"]))
     ncand = 0
+    hit_lines = set()
     for b in bad:
         ln = b["line"]
         if ln in canary_lines:
-            ctx.canaries_hit += 1
+            if ln not in hit_lines:
+                hit_lines.add(ln)
+                ctx.canaries_hit += 1
             continue
         ev = json.loads(lines[ln - 1])
         # find the Compile event of this handle for the source text
@@ -459,7 +466,8 @@ def trace_api(ctx, cats, n=600, corpus=True, timeout=1800, parse=False, mutants=
                 if e2["op"] == "Compile" and e2["h"] == ev["h"]:
                     text = e2["text"]
                     break
-        cat = {"outcome": "outcome", "docmod": "docmod", "compile-accepts": "compile-accepted", "compile-rejects": "compile-rejected"}.get(b["why"], b["why"])
+        cat = {"outcome": "outcome", "docmod": "docmod", "compile-accepts": "compile-accepted", "compile-rejects": "compile-rejected",
+               "reuse-accepts": "parser-reuse", "reuse-rejects": "parser-reuse", "reuse-differs": "parser-reuse"}.get(b["why"], b["why"])
         if cat not in cats:
             continue
         src = bytes((-c if c < 0 else 0) for c in []).decode() if False else "".join(chr(c) if c >= 0 else "\\x%02x" % -c for c in text)
@@ -469,11 +477,16 @@ def trace_api(ctx, cats, n=600, corpus=True, timeout=1800, parse=False, mutants=
             v["allowed"] = b["allowed"]
         else:
             v["allowed"] = b["allowed"]
+        if ev["op"] == "Parse":
+            # depends on what the reused Parser saw before: confirmed by recording the same trace again in a fresh process
+            v["confirm"] = "retrace"
+            v["retrace"] = {"cmd": cmd, "line": ln, "ok": ev["ok"], "ast": ev.get("ast")}
+            v["observed"] = "Parser.Parse on a reused Parser: ok=%s (the text alone determines: %s)" % (ev["ok"], b["allowed"])
         ctx.candidates.append(v)
         ncand += 1
     ctx.log("trace validation: %d events (%d compiles, %d searches; %d unmodelled, %d unspecified), %d candidate(s), %d drift, canaries %d/%d" %
             (m["lines"], m["handles"], stats["searches"], stats["unmodelled"], stats["unspec"], ncand, len(drift),
-             sum(1 for b in bad if b["line"] in canary_lines), len(canary_lines)))
+             len(hit_lines), len(canary_lines)))
     if len(ctx.samples) < 8:
         ctx.samples.append({"recorded_trace_event": json.loads(lines[min(len(lines) - 1, 5)])})
 
@@ -549,7 +562,27 @@ def confirm(ctx, cands):
     path = os.path.join(ctx.scratch, "confirm.ndjson")
     replayable = [v for v in cands if "src_cps" in v and v.get("confirm", "replay") == "replay"]
     toolc = [v for v in cands if v.get("confirm") == "tool"]
-    passthrough = [v for v in cands if v not in replayable and v not in toolc]   # confirmed by their own stage
+    retrace = [v for v in cands if v.get("confirm") == "retrace"]
+    passthrough = [v for v in cands if v not in replayable and v not in toolc and v not in retrace]   # confirmed by their own stage
+    for n, v in enumerate(retrace):
+        rt = v["retrace"]
+        out2 = os.path.join(ctx.scratch, "retrace.%d.ndjson" % n)
+        cmd2 = list(rt["cmd"])
+        cmd2[cmd2.index("-out") + 1] = out2
+        cmd2[cmd2.index("-meta") + 1] = out2 + ".meta"
+        p = subprocess.run(cmd2, capture_output=True, text=True, timeout=1800)
+        same = False
+        if p.returncode == 0:
+            lines2 = open(out2).read().splitlines()
+            if rt["line"] <= len(lines2):
+                e2 = json.loads(lines2[rt["line"] - 1])
+                same = e2.get("op") == "Parse" and e2.get("ok") == rt["ok"] and e2.get("ast") == rt.get("ast")
+        if same:
+            v["needs_history"] = True
+            confirmed.append(v)
+        else:
+            ctx.notes.append("candidate did not reproduce in a fresh process: retrace line %d" % rt["line"])
+            ctx.unreproduced = getattr(ctx, "unreproduced", 0) + 1
     for tool in sorted({v["tool"] for v in toolc}):
         vs = [v for v in toolc if v["tool"] == tool]
         tpath = os.path.join(ctx.scratch, "confirm.%s.ndjson" % tool)
@@ -740,6 +773,11 @@ def main():
     except Machinery as e:
         print("MACHINERY-FAILURE property=%s: %s" % (prop, e), file=sys.stderr, flush=True)
         return 2
+    except Exception:
+        # an internal error of the machinery is never a verdict about the code: exit 2, not the interpreter's exit 1
+        import traceback
+        print("MACHINERY-FAILURE property=%s: internal error\n%s" % (prop, traceback.format_exc()), file=sys.stderr, flush=True)
+        return 2
     finally:
         if not os.environ.get("VERIF_KEEP"):
             ctx.cleanup()
@@ -747,5 +785,13 @@ def main():
 
 if __name__ == "__main__":
     sys.path.insert(0, os.path.join(ROOT, "bin"))
-    import check
-    sys.exit(check.main())
+    try:
+        import check
+        rc = check.main()
+    except SystemExit:
+        raise
+    except BaseException:
+        import traceback
+        print("MACHINERY-FAILURE: internal error\n" + traceback.format_exc(), file=sys.stderr, flush=True)
+        rc = 2
+    sys.exit(rc)
